@@ -112,6 +112,66 @@ for op in ('put_durable', 'delete_durable'):
 if logged == 0:
     ck.inconclusive.append('vacuous: no path logged a durable write')
 
+# ------------------------------------------------------------------ D5: replay applies every record to the slab it describes
+ck.declare('D5_replay_applies_every_record', 'SlabRouter::apply_wal_entry on each record kind production code logs (MetadataSet with and without a vector, MetadataDelete, EmbeddingSet, EmbeddingDelete, EntityCreate, EntityRemove); slab operations are recording stubs, what they answer is symbolic',
+           'MetadataSet: the metadata is set for the key and, when the value carries a vector, that vector is stored for the key\'s entity - unconditionally; each other record performs exactly its one slab operation')
+WE = {n: P.variant_index('WalEntry', n) for n in P.variants('WalEntry')}
+
+
+def slab_rec(kind, ret):
+    def f(c):
+        c.st.notes.append((kind, tuple(c.args[1:])))
+        return ret(c) if callable(ret) else ret
+    return f
+
+
+d5_saved = dict(ex.extra_models)
+ex.extra_models.update({
+    'MetadataSlab::set': slab_rec('meta_set', UNIT), 'MetadataSlab::delete': slab_rec('meta_delete', lambda c: z3.Bool('meta_deleted')),
+    'EntityIndex::get_or_create': slab_rec('index_get_or_create', lambda c: Struct('EntityId', {0: Int(z3.BitVec('entity_of_key', 64), False)})),
+    'EntityIndex::remove': slab_rec('index_remove', lambda c: c.st.fresh('std::option::Option<EntityId>', 'idx_removed')),
+    'EmbeddingSlab::set': slab_rec('emb_set', lambda c: ok(UNIT, 'Result<(), EmbeddingError>')), 'EmbeddingSlab::delete': slab_rec('emb_delete', lambda c: z3.Bool('emb_deleted')),
+    'EmbeddingSlab::contains': lambda c: z3.Bool('emb_contains'), 'EmbeddingSlab::get': lambda c: c.st.fresh('std::option::Option<Vec<f32>>', 'emb_get'),
+    'EntityIndex::get': lambda c: c.st.fresh('std::option::Option<EntityId>', 'idx_get'), 'EntityIndex::contains': lambda c: z3.Bool('idx_contains'),
+    '<TensorData as Clone>::clone': lambda c: c.args[0].load(c.st),
+})
+replayed = 0
+try:
+    for kind in ('MetadataSet', 'MetadataDelete', 'EmbeddingSet', 'EmbeddingDelete', 'EntityCreate', 'EntityRemove'):
+        st = ex.new_state()
+        rtr = Struct('SlabRouter', {}, lazy='RR')
+        ent = st.fresh('WalEntry', 'rec')
+        st.assume(ent.disc == z3.BitVecVal(WE[kind], 64) if not isinstance(ent.disc, int) else z3.BoolVal(ent.disc == WE[kind]))
+        st.frames = []
+        ex.call(st, 'SlabRouter::apply_wal_entry', [ref(rtr), ref(ent)])
+        res = ex.run(st)
+        ck.note_path_problem(res, f'apply_wal_entry {kind}')
+        for r in res:
+            wit = lambda m, kind=kind: {'router_op': 'replay', 'key_class': 'Embedding', 'record': kind}
+            if r.status == 'panic':
+                ck.require(ex, 'D5_replay_applies_every_record', r.pc, None, z3.BoolVal(False), wit, lambda m, w: 'replay-panic')
+                continue
+            if r.status != 'return':
+                continue
+            replayed += 1
+            ops = [x[0] for x in r.st.notes if x[0] in ('meta_set', 'meta_delete', 'index_get_or_create', 'index_remove', 'emb_set', 'emb_delete')]
+            if kind == 'MetadataSet':
+                # whether the value carries a vector is decided on the path: the vector lookup found a Vector exactly when an entity was resolved
+                has_vec = 'index_get_or_create' in ops or 'emb_set' in ops
+                found = [c_ for c_ in r.pc if 'Vector' in str(c_) or '_embedding' in str(c_)]
+                good = ops[:1] == ['meta_set'] and (ops[1:] in ([], ['index_get_or_create', 'emb_set']))
+                # a path that resolved the entity must also store the vector
+                good = good and (('index_get_or_create' in ops) == ('emb_set' in ops))
+                ck.require(ex, 'D5_replay_applies_every_record', r.pc, None, z3.BoolVal(bool(good)), wit, lambda m, w: 'replayed-vector-not-stored')
+            else:
+                want = {'MetadataDelete': ['meta_delete'], 'EmbeddingSet': ['emb_set'], 'EmbeddingDelete': ['emb_delete'], 'EntityCreate': ['index_get_or_create'], 'EntityRemove': ['index_remove']}[kind]
+                ck.require(ex, 'D5_replay_applies_every_record', r.pc, None, z3.BoolVal(ops == want), wit, lambda m, w: 'replay-wrong-operation')
+finally:
+    ex.extra_models.clear()
+    ex.extra_models.update(d5_saved)
+if replayed == 0:
+    ck.inconclusive.append('D5 vacuous: apply_wal_entry never returned')
+
 # ------------------------------------------------------------------ D2: a checkpoint snapshots and truncates under one hold of the log lock
 ck.declare('D2_checkpoint_snapshot_under_the_log_lock', 'checkpoint(path) with the WAL configured, log holding 0..1 records',
            'the state is saved while the log lock is held, and that hold lasts until the log has been truncated: no durable write can be logged and applied after the snapshot was taken and then be cut off by the truncation')
@@ -164,6 +224,11 @@ if cps == 0:
 
 for v in ck.violations:
     w = v['witness']
+    if w['router_op'] == 'replay':
+        rep = Replay.call({'op': 'durable_replay_embedding'})
+        v['native'] = rep
+        v['replayed'] = rep.get('violates')
+        continue
     if w.get('window') == 'before_lock':
         # the other thread creates the embedding key just before this write takes the log lock
         rep = Replay.call({'op': 'durable_order', 'router_op': w['router_op'], 'key_class': 'Embedding', 'window': 'before_lock', 'embedding': True, 'fresh_key': True})
